@@ -447,7 +447,7 @@ class _:
     locals = {"library": "ref:Library"}
     loops = {1: {"invariant": {
         "scan": "scan(self) and not isnone(self._markiter)",
-        "library": "allocated(library) and WF(library) and implies(not isnone(old(library)), same(library, old(library)))",
+        "library": "allocated(library) and allocated(library._blocks) and allocated(library._entries_by_key) and allocated(library._strings_by_key) and WF(library) and implies(not isnone(old(library)), same(library, old(library)))",
         "comment-start": "comment_start_ok(self)",
     }, "decreases": "2 * (NMARKS() - CUR()) + (1 if midx(self._unaccepted_mark) >= 0 else 0)", "props": ("C01", "C04", "C08")}}
     ensures = {
